@@ -281,7 +281,9 @@ def bracket_sweep(ctx, maxlen):
             if not ctx.mine(idx):
                 continue
             text = '[' + ''.join(tup)
-            for fnames, fl_f, fl_g in (((), 0, 0), (('EXTMATCH', 'IGNORECASE'), F.EXTMATCH | F.IGNORECASE, G.EXTGLOB | G.IGNORECASE)):
+            for fnames, fl_f, fl_g in (((), 0, 0), (('EXTMATCH', 'IGNORECASE'), F.EXTMATCH | F.IGNORECASE, G.EXTGLOB | G.IGNORECASE),
+                                       # Windows style: the backslash is a separator too, inside brackets it is spliced in as a class of its own
+                                       (('FORCEWIN',), F.FORCEWIN, G.FORCEWIN)):
                 for pat in (text, text.encode('ascii')):
                     check_regexes(ctx, 'fnmatch.translate', pat, fnames, call(ctx, 'fnmatch.translate', pat, fnames, F.translate, pat, flags=fl_f))
                     check_regexes(ctx, 'glob.translate', pat, fnames, call(ctx, 'glob.translate', pat, fnames, G.translate, pat, flags=fl_g))
